@@ -38,8 +38,8 @@ var done bool
 func main() {
 	kit.Main(&kit.Check{
 		ID: "C36", Level: "model_checking",
-		Rule: "part configs: (source, builder, cores 1..16) run natively, dump vs the 1-core dump. part sched: (source, builder) with 2 goroutines under the controlled scheduler, every interleaving up to the bound, dump vs the 1-core dump; non-trivial = execution with at least one scheduling choice; distinct = happens-before keys.",
-		Assumptions: []string{"code between two synchronisation operations runs atomically; sync/atomic counters are not scheduling points", "map ranges in rewritten packages use one fixed order", "compact scratch buffers reduced to 1 MB by a build-time transform"},
+		Rule:          "part configs: (source, builder, cores 1..16) run natively, dump vs the 1-core dump. part sched: (source, builder) with 2 cores under the controlled scheduler, every interleaving up to the bound, dump vs the 1-core dump. part validator: the compact builder's shared Validator driven directly by 2-3 goroutines delivering a partition of a feature list, every interleaving, the features handed back for emission vs the schedule-free rule and vs one goroutine alone (delivered area objects are overwritten after each call, as reusing sources do); non-trivial = execution with at least one scheduling choice; distinct = happens-before keys.",
+		Assumptions:   []string{"code between two synchronisation operations runs atomically; sync/atomic counters are not scheduling points", "map ranges in rewritten packages use one fixed order", "compact scratch buffers reduced to 1 MB by a build-time transform"},
 		QuickDeadline: 250e9, ThoroughDeadline: 1500e9, CaseTimeout: 500e9, Chunk: 1,
 		Build: func(tier string) (kit.Space, string) {
 			var sc []scenario
@@ -56,11 +56,47 @@ func main() {
 					sc = append(sc, scenario{"sched", kind, src, 2})
 				}
 			}
-			bound, maxExec := 1, int64(300)
+			// basic builds: iterative preemption bounding; compact builds (30x more
+			// choice points): deviation bounding, capped
+			basicBound, compactBound, maxExec := 2, 1, int64(1500)
+			vals := append(valScenarios(5, 2), valScenarios(4, 3)...)
 			if tier == "thorough" {
-				bound, maxExec = 2, 30000
+				basicBound, compactBound, maxExec = 3, 1, 40000
+				vals = append(valScenarios(5, 2), valScenarios(5, 3)...)
 			}
-			return kit.FuncSpace{N: int64(len(sc)), F: func(i int64) kit.Result {
+			const valGroup = 500
+			nVal := (len(vals) + valGroup - 1) / valGroup
+			return kit.FuncSpace{N: int64(len(sc) + nVal), F: func(i int64) kit.Result {
+				if i >= int64(len(sc)) {
+					runtime.GOMAXPROCS(1)
+					var r kit.Result
+					lo := int(i-int64(len(sc))) * valGroup
+					for j := lo; j < lo+valGroup && j < len(vals); j++ {
+						var r1 kit.Result
+						runValidator(vals[j], &r1)
+						r.Evals += r1.Evals
+						r.States += r1.States
+						r.Transitions += r1.Transitions
+						r.Distinct += r1.Distinct
+						r.Capped = r.Capped || r1.Capped
+						r.Violations = append(r.Violations, r1.Violations...)
+						if r.Outcomes == nil {
+							r.Outcomes = map[string]int64{}
+						}
+						for k, v := range r1.Outcomes {
+							r.Outcomes["validator:"+k] += v
+						}
+						for k, v := range r1.Counters {
+							r.Count(k, v)
+						}
+					}
+					r.Nontrivial = true
+					r.Key = fmt.Sprintf("validator scenarios %d..", lo)
+					if lo == 0 {
+						r.Sample = map[string]interface{}{"first": vals[0].String(), "last": vals[len(vals)-1].String(), "scenarios": len(vals)}
+					}
+					return r
+				}
 				s := sc[i]
 				var r kit.Result
 				ref, err := parkit.Build(s.kind, s.src.Spec, 1)
@@ -130,7 +166,16 @@ func main() {
 					}
 					return "equal", fails
 				}
-				res := sched.Explore(body, check, sched.Options{MaxPreemptions: bound, MaxExecutions: maxExec, Horizon: 100000})
+				opts := sched.Options{MaxPreemptions: basicBound, MaxExecutions: 20 * maxExec, Horizon: 100000, SinglePhase: true}
+				if s.kind == "compact" {
+					opts = sched.Options{MaxPreemptions: compactBound, AllDeviations: true, MaxExecutions: maxExec, Horizon: 100000}
+				}
+				res := sched.Explore(body, check, opts)
+				if s.kind == "compact" {
+					r.Count("compact_build_scenarios_by_deviation_bound", 1)
+				}
+				r.Count("alternatives_cut_by_single_phase_rule", res.PhaseCuts)
+				r.Count("max_phases_in_one_execution", int64(res.Phases))
 				r.Evals, r.States, r.Transitions, r.Distinct = res.Executions, res.States, res.Transitions, res.States
 				r.Nontrivial = res.MaxPoints > 0
 				r.Capped = res.Capped
@@ -140,7 +185,7 @@ func main() {
 				if res.Unbounded {
 					r.Count("scenarios_explored_without_bound", 1)
 				} else {
-					r.Count(fmt.Sprintf("scenarios_completed_to_bound_%d", res.BoundCompleted), 1)
+					r.Count(fmt.Sprintf("%s_build_scenarios_completed_to_bound_%d", s.kind, res.BoundCompleted), 1)
 				}
 				for _, f := range res.Failures {
 					e1 := sched.Replay(body, f.Choices, 100000)
@@ -159,7 +204,7 @@ func main() {
 				}
 				r.Sample = map[string]interface{}{"scenario": s.String(), "executions": res.Executions, "states": res.States, "bound_completed": res.BoundCompleted, "capped": res.Capped, "outcomes": res.Outcomes}
 				return r
-			}}, fmt.Sprintf("%d scenarios (%d sources x 2 builders: sched with 2 goroutines, preemption bound %d, cap %d executions each; configs with cores 2..16 x 5 repetitions)", len(sc), len(srcs), bound, maxExec)
+			}}, fmt.Sprintf("%d build scenarios (%d sources x 2 builders: configs with cores 2..16 run natively; sched with 2 cores under the controlled scheduler: basic builds every interleaving with at most %d preemptions, deviations confined to one phase between quiescent points, cap %d executions; compact builds every schedule with at most %d departures from the default schedule, cap %d executions) + %d validator scenarios (every ordered delivery of 2..k of 10 menu features (4 paths: closed ccw, open, missing point, closed cw; 6 areas over them, one over a path never delivered) to 2 goroutines (k<=%d) and 3 goroutines (k<=%d), every interleaving, no bound)", len(sc), len(srcs), basicBound, 20*maxExec, compactBound, maxExec, len(vals), 5, map[bool]int{false: 4, true: 5}[tier == "thorough"])
 		},
 	})
 }
